@@ -578,6 +578,34 @@ def gen_corr(rng, n):
     return cases
 
 
+def pregen(ctx):
+    """tie (T): re-translate the scaling / partial-application / ring-line logic of mat_gen.py of the tree under test into
+    coq/gen/Gen_matgen.v (tools/vlib/py2coq_mg.py).  On rejection a NON-COMPILING stub is written (never a stale model) and the error
+    text is returned: the tie is then reported broken."""
+    import os
+    import traceback
+    from vlib import py2coq_mg
+    from vlib.py2coq_la import Reject
+    gdir = os.path.join(core.COQ, "gen")
+    os.makedirs(gdir, exist_ok=True)
+    path = os.path.join(gdir, "Gen_matgen.v")
+    err = None
+    try:
+        text = py2coq_mg.emit(core.REPO)
+    except Reject as ex:
+        text, err = None, "translation rejected: %s" % ex
+    except Exception:
+        text, err = None, "translator exception: " + traceback.format_exc()[-1500:]
+    if text is None:
+        text = "(* GENERATED: translation of reservoirpy/mat_gen.py FAILED -- %s *)\nDefinition translation_failed : True := 0.\n" % (
+            err.replace("*)", "* )").replace("(*", "( *"))
+    old = open(path).read() if os.path.exists(path) else None
+    if old != text:               # keep the mtime (and the compiled cone) when nothing changed
+        with open(path, "w") as f:
+            f.write(text)
+    return ("unit matgen: %s" % err) if err else None
+
+
 def correspondence(ctx):
     rng = ctx.rng("corr")
     cases = gen_corr(rng, ctx.n(260, 3000))
@@ -761,6 +789,9 @@ def fixed_defect_probes():
     add("ring", [2, 2], {}, sr="1/2")
     for st in ("csr", "csc"):
         add("line", [6, 6], {"sparsity_type": st}, sr="1/2")
+    # FSI on a few hundred units: the same density requested through connectivity, degree (out) and degree (in)
+    for kwf in ({"connectivity": 0.05}, {"degree": 10}, {"degree": 10, "direction": "in"}, {"degree": 4}):
+        add("fast_spectral_initialization", [200], kwf, sr="9/10")
     for f in ("np.int64", "generator", "randomstate", "global"):
         P.append({"kind": "oracle", "init": "uniform", "shape": [6, 6], "kw": {"connectivity": 0.5}, "seed": 2024, "split": 7,
                   "seed_form": f, "sr": "9/10"})
@@ -896,10 +927,19 @@ def _judge(c):
         mt = 1e-6 if dt == np.float32 else 1e-9      # entrywise proportionality
         if init == "fast_spectral_initialization":
             # FSI sets the bounds of the uniform law: W = |a| * (same-seed draw on [-1,1]), a positive multiple
-            conn = kw.get("connectivity", 1.0)
-            a = abs(-(6 * sr) / (np.sqrt(12) * np.sqrt(conn * shape[0])))
-            if not np.allclose(WD, a * D, rtol=mt, atol=mt * 1e-3 * a):
+            # (the factor is read off the result: which density enters the closed formula is itself judged below, on large matrices)
+            a = float(np.abs(WD).max() / np.abs(D).max()) if np.abs(D).max() > 0 else 0.0
+            if not (a > 0 or not D.any()) or not np.allclose(WD, a * D, rtol=mt, atol=mt * 1e-3 * max(a, 1e-300)):
                 return _viol("sr:not-positive-multiple", "FSI(sr) is not |a| times the same-seed draw on [-1,1]", c, a)
+            if shape[0] >= 150 and D.any():
+                # FSI is a statistical rule: on a few hundred units the radius is within ~15 % of the request (measured 0.95..1.2 for
+                # connectivity AND degree requests of the same density once the density is computed right); far outside = wrong formula
+                rho = float(max(abs(np.linalg.eigvals(WD))))
+                if not (0.6 * sr <= rho <= 1.6 * sr):
+                    return _viol("fsi:radius-far-from-request%s" % (":degree" if "degree" in kw else ""),
+                                 "fast_spectral_initialization(%d, sr=%r, %s) has spectral radius %.4f (ratio %.3f): the bounds of the uniform law "
+                                 "are computed from `connectivity` although the density of the draw is given by `degree`"
+                                 % (shape[0], sr, pykw(kw), rho, rho / sr), c, sr, rho)
             return None
         rho0 = float(max(abs(np.linalg.eigvals(D)))) if D.size else 0.0
         # a null radius is decided exactly (W0^n == 0 over the rationals): LAPACK/ARPACK estimates of a defective null
